@@ -93,6 +93,59 @@ def impl_trace(job):
     return {"out": out}
 
 
+def impl_rows(job):
+    """Hook-free runs: only the reported rows of real seeded simulations (plain / safe / volume)."""
+    import numpy as np
+    from bioscrape.types import Volume
+    from bioscrape.simulator import ModelCSimInterface, SafeModelCSimInterface, SSASimulator, VolumeSSASimulator
+    import bioscrape.random as brandom
+    out = []
+    for t in job["items"]:
+        rec = t["rec"]
+        res = {"id": t["id"]}
+        try:
+            m, _ = build(rec["prog"], x0=[[v, 1] for v in rec["x0"]], ns=rec["ns"])
+            s2i = m.get_species2index()
+            cols = [s2i["S%d" % (i + 1)] for i in range(rec["ns"])]
+            itf = SafeModelCSimInterface(m) if rec["safe"] else ModelCSimInterface(m)
+            tp = np.array([f(x) for x in rec["tp"]])
+            itf.py_set_dt(float(tp[1] - tp[0]))
+            brandom.py_seed_random(t["seed"])
+            if t["vol"]:
+                v = Volume()
+                v.py_set_volume(f(t["V"]))
+                rows = VolumeSSASimulator().py_volume_simulate(itf, v, tp).py_get_result()
+            else:
+                rows = SSASimulator().py_simulate(itf, tp).py_get_result()
+            rr = [[float(rows[i, c]) for c in cols] for i in range(rows.shape[0])]
+            res["non_integer"] = any(not x.is_integer() for row in rr for x in row)
+            res["rows"] = [[int(x) for x in row] for row in rr]
+        except BaseException as e:  # noqa
+            res["exc"] = repr(e)[:300]
+        out.append(res)
+    return {"out": out}
+
+
+def closed(prog):
+    """every reaction has reactants and does not increase the total count: finite reachable set"""
+    for rx in prog["rx"]:
+        if rx["law"]["type"] != "massaction" or len(rx["re"]) == 0:
+            return False
+        if len(rx["pr"]) + len(rx["dpr"]) > len(rx["re"]) + len(rx["dre"]):
+            return False
+    return True
+
+
+def validate_rows(traces, ns):
+    tag = "%d_%d_%s" % (ns, len(traces), traces[0]["id"])
+    path = os.path.join(common.tmpdir(), "rows_ns%s.json" % tag)
+    with open(path, "w") as fh:
+        json.dump(traces, fh, indent=0)
+    cfg = common.make_cfg("tracerows_" + tag, spec="Spec", constants={"NS": str(ns)})
+    r = common.run_tlc("TraceRows", cfg, workers=1, env_extra={"TRACE_FILE": path}, keep_stdout=False, timeout=3000)
+    return {rec["tid"]: rec for rec in r.records}, r
+
+
 def chem_runs(tier):
     base = {"NS": "2", "NT": "3", "Mode": '"chem"'}
     runs = [("chem_1rx", dict(base, MaxRx="1", MaxSide="2", MaxCount="5"))]
@@ -207,10 +260,52 @@ def run(tier):
                 v.violation("%s:%s:safe=%s" % (vd["clause"], tr["kind"], tr["safe"]),
                             "trace rejected at event %d of %d: clause %s" % (vd["at"], vd["events"], vd["clause"]),
                             {"item": it, "trace": tr, "verdict": vd})
+    # ---- rows-only validation without any hook, on closed networks (complete: a missing path is a violation)
+    citems = []
+    for i, rec in enumerate(r for r in recs if closed(r["prog"]) and sum(r["x0"]) <= 12):
+        for k in range(2):
+            citems.append({"id": len(citems) + 1, "rec": rec, "seed": seed * 7907 + 13 * i + k + 1, "vol": bool((i + k) % 3 == 0), "V": VOLS[(i + k) % 3]})
+    citems = citems[: (400 if tier == "quick" else 6000)]
+    rres = pool.run_jobs("c06", "impl_rows", [{"items": ch} for ch in pool.chunks(citems, 40)])
+    cby = {it["id"]: it for it in citems}
+    rtr = {}
+    for res in rres:
+        if "out" not in res:
+            v.violation("crash:rows-only", "simulator worker died: %r" % (res.get("crash"),), {})
+            continue
+        for o in res["out"]:
+            it = cby[o["id"]]
+            if "exc" in o:
+                v.violation("exception:rows-only", o["exc"], {"rows_item": it})
+            elif o["non_integer"]:
+                v.violation("non-integer:rows-only", "integer initial counts produced non-integer rows", {"rows_item": it})
+            else:
+                rec = it["rec"]
+                rtr.setdefault(rec["ns"], []).append({"id": o["id"], "prog": rec["prog"], "safe": rec["safe"], "x0": rec["x0"],
+                                                      "vol": it["vol"], "V": it["V"], "rows": o["rows"]})
+    rows_ok = 0
+    with cf.ThreadPoolExecutor(max_workers=8) as ex:
+        futs = [ex.submit(validate_rows, ch, ns) for ns, trs in rtr.items() for ch in pool.chunks(trs, 60)]
+        rverd = {}
+        for fu in futs:
+            vd, r = fu.result()
+            rverd.update(vd)
+            tstates += r.distinct
+    for ns, trs in rtr.items():
+        for tr in trs:
+            vd = rverd.get(tr["id"])
+            if vd is None:
+                raise common.MachineryError("no verdict for rows-only trace %s" % tr["id"])
+            if vd["verdict"] == "accepted":
+                rows_ok += 1
+            else:
+                v.violation("rows-only:%s:safe=%s:vol=%s" % (vd["clause"], tr["safe"], tr["vol"]),
+                            "no sequence of enabled firings explains rows %d -> %d" % (vd["at"], vd["at"] + 1) if vd["clause"] == "no-feasible-path" else vd["clause"],
+                            {"rows_item": cby[tr["id"]], "trace": tr, "verdict": vd})
     rc = v.finish()
     ntr = sum(len(t) for t in traces.values())
     some = next(iter(traces.values()))[0] if traces else {}
-    cov = {"states": states + tstates, "transitions": trans + tstates, "traces_validated_against_impl": accepted,
+    cov = {"states": states + tstates, "transitions": trans + tstates, "traces_validated_against_impl": accepted + rows_ok, "rows_only_traces_on_closed_networks": len(citems), "rows_only_accepted": rows_ok,
            "samples": [{"prog": some.get("prog"), "kind": some.get("kind"), "x0": some.get("x0"), "events": some.get("ev", [])[:6]}],
            "exhaustive_chemistry": mc, "traces_recorded": ntr, "runs_skipped_unbounded_dynamics": skipped_unbounded, "fire_events_validated": nfire,
            "kinds": {k: sum(1 for t in traces.values() for tr in t if tr["kind"] == k) for k in ("ssa", "volume", "delay")},
@@ -224,6 +319,20 @@ def run(tier):
 
 def replay(path):
     case = json.load(open(path))["case"]
+    if "rows_item" in case:
+        it = case["rows_item"]
+        o = pool.run_jobs("c06", "impl_rows", [{"items": [it]}], nworkers=1)[0]["out"][0]
+        if "exc" in o or o.get("non_integer"):
+            print(json.dumps(o)[:1500])
+            print("VIOLATION property=%s replay=%s" % (PROP, path))
+            return 1
+        rec = it["rec"]
+        vd, _ = validate_rows([{"id": o["id"], "prog": rec["prog"], "safe": rec["safe"], "x0": rec["x0"], "vol": it["vol"], "V": it["V"], "rows": o["rows"]}], rec["ns"])
+        print(json.dumps(vd, indent=1))
+        if any(x["verdict"] != "accepted" for x in vd.values()):
+            print("VIOLATION property=%s replay=%s" % (PROP, path))
+            return 1
+        return 0
     it = case["item"]
     res = pool.run_jobs("c06", "impl_trace", [{"items": [it]}], nworkers=1)[0]
     o = res["out"][0]
